@@ -266,6 +266,10 @@ func (g *generator) walkEnum(schema *openapi3.Schema) (ast.Type, error) {
 		format = "%s"
 	}
 
+	if len(schema.Type.Slice()) == 0 {
+		return ast.Type{}, fmt.Errorf("enum without a type")
+	}
+
 	enumType, err := getEnumType(schema.Type.Slice()[0])
 	if err != nil {
 		return ast.Type{}, err
